@@ -31,6 +31,14 @@ class Location:
         self.end_col = end_col
         self.filename = filename
 
+    def __eq__(self, other):
+        # The dataclass declares no fields, so its generated comparison
+        # would call any two locations equal
+        if not isinstance(other, Location):
+            return NotImplemented
+        return ((self.line, self.col, self.end_line, self.end_col, self.filename) ==
+                (other.line, other.col, other.end_line, other.end_col, other.filename))
+
     def __str__(self):
         return f"<Location({self.line}, {self.col}, {self.filename!r})>"
 
